@@ -403,6 +403,10 @@ func main() {
 	}
 	start := time.Now()
 
+	if prop == "-" && mode == "selftest" {
+		selftest(os.Args[3:])
+		return
+	}
 	if prop == "-" && mode == "build" {
 		_, th := build(false)
 		build(true)
